@@ -68,6 +68,10 @@ class Cancel:
     ensures = dict(every_task_asked_to_cancel="all(t.cancel_requested for t in self._tasks)")
 
 
+def ended_normally(t):
+    return t.done() and not t.cancelled() and t.exception() is None
+
+
 @contract(f"{BGS}:BackgroundService.stop")
 class Stop:
     """Stopping cancels every task the service spawned - including tasks added while it waits - and
@@ -83,6 +87,10 @@ class Stop:
     ensures = dict(
         original_tasks_finished="all(t.done() for t in spawned)",
         late_tasks_finished_too="all(t.done() for t in late)",
+        # the part of the clause above that the unchanged tree does satisfy (outside the known finding): when the
+        # tasks present at the call all end without raising, wait() loops and a task added meanwhile is awaited too
+        late_tasks_finished_when_first_batch_clean="implies(all(ended_normally(t) for t in spawned),"
+                                                   " all(t.done() for t in late))",
     )
     ensures_on_raise = dict(
         original_tasks_finished="all(t.done() for t in spawned)",
